@@ -2,3 +2,4 @@ pub mod text;
 pub mod edit;
 pub mod matchw;
 pub mod windows;
+pub mod tok;
